@@ -1,11 +1,19 @@
 """print the prompt for a seeding sub-agent: tools/seed_prompt.py CNN /tmp/seed-CNN"""
 import json, sys
 pid, wt = sys.argv[1], sys.argv[2]
+first = int(sys.argv[3]) if len(sys.argv) > 3 else 1   # number of the first change (round 2: 3)
+import glob, os, re
+taken = []
+if first > 1:
+    for d in sorted(glob.glob('/verif/seeded/%s-*' % pid)):
+        m = json.load(open(d + '/meta.json'))
+        files = sorted(set(re.findall(r'^\+\+\+ b/(\S+)', open(d + '/patch.diff').read(), re.M)))
+        taken.append(' - %s  [%s]: needs %s' % (os.path.basename(d), ', '.join(files), m['needs_to_manifest']))
 for l in open('/verif/properties.jsonl'):
     p = json.loads(l)
     if p['id'] == pid:
         break
-print(f"""You are given a git worktree of the Python project emilkarlen/exactly (a CLI program tester with its own test-case DSL; pure Python) at {wt}. Do all your work inside {wt} (and /tmp/{pid}-scratch if you need scratch space). Do NOT read, list or touch /repo, /verif or any other directory - your work must be independent of anything there. Python is /venv/bin/python; ALWAYS run it with PYTHONPATH={wt}/src so that your worktree's sources are imported (the installed package points elsewhere). The program is run as `PYTHONPATH={wt}/src PYTHONWARNINGS=ignore /venv/bin/python {wt}/src/default-main-program-runner.py [args]` (`... help`, `... help instructions`, `... help case spec`, `... FILE.case`, `... suite FILE.suite`); examples of test cases are under {wt}/examples.
+text = (f"""You are given a git worktree of the Python project emilkarlen/exactly (a CLI program tester with its own test-case DSL; pure Python) at {wt}. Do all your work inside {wt} (and /tmp/{pid}-scratch if you need scratch space). Do NOT read, list or touch /repo, /verif or any other directory - your work must be independent of anything there. Python is /venv/bin/python; ALWAYS run it with PYTHONPATH={wt}/src so that your worktree's sources are imported (the installed package points elsewhere). The program is run as `PYTHONPATH={wt}/src PYTHONWARNINGS=ignore /venv/bin/python {wt}/src/default-main-program-runner.py [args]` (`... help`, `... help instructions`, `... help case spec`, `... FILE.case`, `... suite FILE.suite`); examples of test cases are under {wt}/examples.
 
 A semantic property users of this program rely on:
 
@@ -13,15 +21,20 @@ TITLE: {p['title']}
 STATEMENT: {p['statement']}
 QUANTIFIED OVER: {p['quantifier']['text']}
 
-TASK: produce TWO independent small source changes (at different mechanisms / code sites) under {wt}/src, each of which BREAKS this property in a realistic way (the kind of regression a maintainer could introduce by a plausible refactoring or "optimisation"), while
+{{AVOID}}TASK: produce TWO independent small source changes (at different mechanisms / code sites) under {wt}/src, each of which BREAKS this property in a realistic way (the kind of regression a maintainer could introduce by a plausible refactoring or "optimisation"), while
  (1) the code still imports and the program still works for ordinary use,
  (2) the pinned test suite gives exactly the same result as without the change: `cd {wt} && PYTHONPATH={wt}/src /venv/bin/python -m pytest -q -p no:cacheprovider --timeout=900 --continue-on-collection-errors 2>&1 | tail -1` (before any change it prints "182 failed, 171 passed, ... 23 errors" - those failures/errors are pre-existing collection problems; the numbers must stay identical),
  (3) preferably the repository's own bigger unittest suite also still passes: `mkdir -p /tmp/{pid}-scratch/tmp && cd {wt}/test && TMPDIR=/tmp/{pid}-scratch/tmp PYTHONPATH={wt}/src PYTHONWARNINGS=ignore /venv/bin/python run-test-suite.py 2>&1 | tail -4` (3-6 minutes, more when the machine is busy; "FAILED (errors=3)" with 4713 tests is the pre-existing result; it litters its TMPDIR: remove /tmp/{pid}-scratch/tmp afterwards; never delete anything directly under /tmp that is not yours - other people run the same suite concurrently). If a change unavoidably makes one or two of those example tests fail, say which; prefer changes that keep them all passing.
 Each change must need something SPECIFIC to manifest - a particular multi-step sequence of instructions/phases, an unusual but legal input, a failure at a particular step, a particular combination of options, or two cooperating code sites that each look fine alone - not something that ordinary use (e.g. the files under examples/) would expose at once.
 
-For each change i in (1, 2) deliver in {wt}:
+For each change i in ({{I1}}, {{I2}}) deliver in {wt}:
  - seed{pid}_i.diff : `git diff` of the source change only (apply one change at a time: start each from a clean tree with `git stash` / `git checkout -- src`),
  - demo{pid}_i.py : a self-contained demonstration (python script using only the standard library and the program under test, run as `PYTHONPATH={wt}/src /venv/bin/python demo{pid}_i.py`) that creates the test-case files it needs in a temporary directory, runs the real program, checks the property on that input, and exits 1 (printing what is wrong) WITH the change applied and exits 0 WITHOUT it. Verify both directions yourself.
 Leave the worktree's src clean (no change applied) when you finish; keep only the .diff and demo files (untracked) in {wt}.
 
 Final report (concise): for each change - which part of the property it breaks, the code site(s), exactly what is needed for it to manifest, results of the pinned suite and of run-test-suite.py with the change, and the commands you ran to verify the demo in both directions.""")
+avoid = ''
+if taken:
+    avoid = ('ALREADY TAKEN by earlier engineers (do NOT repeat these mechanisms or near variants of them; pick other '
+             'clauses of the statement, other code sites, other kinds of trigger):\n' + '\n'.join(taken) + '\n\n')
+print(text.replace('{AVOID}', avoid).replace('{I1}', str(first)).replace('{I2}', str(first + 1)))
